@@ -516,3 +516,285 @@ def _t(trace, seq):
 
 
 MONITORS["C13"] = mon_c13
+
+
+# ------------------------------------------------------------------------------------------------ API level (C06, C07, C14, C17)
+import re as _re
+
+_LINE = _re.compile(r"@([^:]+?):([^=]+?)=(.*)", _re.S)
+LIB_EXC = {"YncaConnectionError", "YncaConnectionFailed", "YncaInitializationFailedException"}
+
+
+def api_rets(trace, op):
+    return [e for e in trace if e["k"] == "api_ret" and e["op"] == op]
+
+
+def api_calls(trace, op):
+    return [e for e in trace if e["k"] == "api_call" and e["op"] == op]
+
+
+def dev_lines(trace):
+    return [(e["seq"], e["t"], e["line"], e.get("cause")) for e in trace if e["k"] == "dev_line"]
+
+
+def read_lines(trace):
+    """[(seq of the read that completed the line, t, text)]"""
+    return [(r, _t(trace, r), text) for r, _w, text in lines_by_read(trace)]
+
+
+def decode_show(py_class, fname, text):
+    """typed decoding of `text` for function `fname` of class `py_class`, rendered like scen_api.show; None if undecodable"""
+    from .realobj import subunit_class
+    from .scen_api import show
+    cls = subunit_class(py_class)
+    for attr in dir(cls):
+        a = getattr(cls, attr, None)
+        if getattr(a, "name", None) == fname and hasattr(a, "converter"):
+            try:
+                r = show(a.converter.to_value(text))
+                return None if r == "NONE" else r      # a value that decodes to None reads like "never reported"
+            except Exception:  # noqa: BLE001
+                return None
+    return None
+
+
+def mon_c06(spec, run):
+    bad = []
+    tr = run.trace
+    calls_ = api_calls(tr, "sub_initialize")
+    rets = api_rets(tr, "sub_initialize")
+    if not calls_:
+        return bad
+    if not rets:
+        return [("hang", "subunit.initialize() never returned")]
+    c0, r0 = calls_[0], rets[0]
+    sid = spec["expect_id"]
+    subs = [c for c in calls(tr) if c0["seq"] < c["call"] < r0["seq"] and c["op"][0] in ("get", "put", "raw")]
+    texts = [text_of(c["op"]) for c in subs]
+    exp = [f"@{sid}:{q}=?" for q in spec["expect_queries"]]
+    sync = "@SYS:VERSION=?"
+    if sorted(texts[:-1]) != sorted(exp) or not texts or texts[-1] != sync:
+        extra = [t for t in texts if t not in exp + [sync]]
+        missing = [t for t in exp if t not in texts]
+        dup = sorted({t for t in texts if texts.count(t) > 1})
+        bad.append(("queries", f"initialize() of {spec['class']} requested {len(texts)} commands; missing {missing[:4]}, unexpected {extra[:4]}, repeated {dup[:4]}, last {texts[-1:]} (expected each initial query once and {sync} last)"))
+    n = len(subs)
+    vq_writes = [e for e in tr if e["k"] == "write" and bytes.fromhex(e["data"]) == (sync + "\r\n").encode() and e["seq"] > c0["seq"]]
+    vlines = [(s, t, x) for s, t, x in read_lines(tr) if x.startswith("@SYS:VERSION=") and vq_writes and s > vq_writes[0]["seq"]]
+    if r0["exc"] is None:
+        if not vlines or vlines[0][0] > r0["seq"]:
+            bad.append(("early-return", "initialize() returned before the reply to its SYS:VERSION synchronisation query had been received"))
+        else:
+            barrier = vlines[0][0]
+            # every value the device sent before the sync reply is readable; a later report for the same function may already have replaced it
+            dl = dev_lines(tr)
+            vdev = next((s for s, t, l, c in dl if l.startswith("@SYS:VERSION=") and c == sync), None)
+            sent = {}
+            for s, t, l, cse in dl:
+                m = _LINE.fullmatch(l)
+                if m and m.group(1) == sid and s < r0["seq"]:
+                    sent.setdefault(m.group(2), []).append((s, m.group(3)))
+            attrs = r0.get("attrs", {})
+            for fn, vals in sent.items():
+                if fn == "VERSION":
+                    continue
+                before = [v for s, v in vals if vdev is not None and s < vdev]
+                after = [v for s, v in vals if vdev is None or s >= vdev]
+                if not before:
+                    continue
+                cands = [decode_show(spec["class"], fn, v) for v in [before[-1]] + after]
+                if cands[0] is None and fn not in attrs:
+                    continue
+                if all(c is None for c in cands):
+                    continue
+                # walk back over undecodable values: the attribute keeps the previous decodable one
+                dec_before = [d for d in (decode_show(spec["class"], fn, v) for v in before) if d is not None]
+                ok = attrs.get(fn) in [c for c in cands if c is not None] or (cands[0] is None and dec_before and attrs.get(fn) == dec_before[-1])
+                if decode_show(spec["class"], fn, before[-1]) is None and not dec_before:
+                    ok = ok or fn not in attrs
+                if not ok and fn in spec.get("readable", [fn]):
+                    bad.append(("stale", f"after initialize() returned, {spec['class']}.{fn} reads {attrs.get(fn)!r}; the device had sent {before[-1]!r} before the sync reply"))
+                    break
+        if any(e["k"] == "upd_cb" and e["seq"] < r0["seq"] for e in tr):
+            bad.append(("early-callback", "an update callback fired before initialize() had completed"))
+    else:
+        if r0["exc"] != "YncaInitializationFailedException":
+            bad.append(("wrong-exception", f"initialize() raised {r0['exc']}: {r0.get('msg')}"))
+        if vlines and vlines[0][1] < r0["t"] - 1000:
+            bad.append(("spurious-failure", "initialize() raised although the reply to its synchronisation query had been received in time"))
+        last_sub = max((c["t_ret"] for c in subs if c["t_ret"] is not None), default=c0["t"])
+        want = 2_000_000 + n * 500_000
+        if abs((r0["t"] - last_sub) - want) > 2000 and not any(e["k"] in ("read_fault", "fault_injected") for e in tr):
+            bad.append(("timeout-bound", f"initialize() gave up {(r0['t'] - last_sub) / 1e6:.3f}s after sending {n} commands; the bound is 2 s + 0.5 s per command = {want / 1e6:.1f}s"))
+    return bad
+
+
+def _stage_barriers(tr):
+    """seq numbers of the device's SYS:VERSION lines in emission order (stage k ends with the k-th)"""
+    return [s for s, t, l, c in dev_lines(tr) if l.startswith("@SYS:VERSION=")]
+
+
+def mon_c07(spec, run):
+    bad = []
+    tr = run.trace
+    rets = api_rets(tr, "initialize")
+    if not api_calls(tr, "initialize"):
+        return bad
+    if not rets:
+        return [("hang", "YncaApi.initialize() never returned")]
+    r0 = rets[0]
+    if r0["exc"] is not None:
+        if spec.get("healthy"):
+            bad.append(("init-failed", f"initialize() raised {r0['exc']}: {r0.get('msg')} against a device that answers every query promptly"))
+        return bad
+    state = r0["state"]
+    dl = dev_lines(tr)
+    avail = {}
+    first_barrier = next((s for s, t, l, c in dl if l.startswith("@SYS:VERSION=")), 10 ** 12)
+    for s, t, l, c in dl:
+        m = _LINE.fullmatch(l)
+        # the device answered the AVAIL query of the detection stage with a value (the stage ends with the first SYS:VERSION line)
+        if m and m.group(2) == "AVAIL" and c is not None and s < first_barrier:
+            avail[m.group(1)] = m.group(3)
+    known = set(spec.get("known_ids", []))
+    want = {"SYS"} | {s for s in avail if s in known}
+    if set(state.keys()) != want:
+        bad.append(("presence", f"accessors set for {sorted(state.keys())}, the device answered AVAIL for {sorted(avail)} (SYS is always present)"))
+        return bad
+    for s, o in state.items():
+        if o["id"] != s:
+            bad.append(("identity", f"accessor {s.lower()} holds an object with id {o['id']}"))
+    barriers = _stage_barriers(tr)
+    order = ["SYS"] + sorted(x for x in want if x != "SYS")
+    for s, o in state.items():
+        stage = 1 + order.index(s)
+        bseq = barriers[stage] if stage < len(barriers) else None
+        sent = {}
+        for q, t, l, c in dl:
+            m = _LINE.fullmatch(l)
+            if m and m.group(1) == s and q < r0["seq"] and c is not None and c.endswith("=?"):
+                sent.setdefault(m.group(2), []).append((q, m.group(3)))
+        # unsolicited / echo lines for the same function may legitimately replace the answer
+        other = {}
+        for q, t, l, c in dl:
+            m = _LINE.fullmatch(l)
+            if m and m.group(1) == s and q < r0["seq"]:
+                other.setdefault(m.group(2), []).append((q, m.group(3)))
+        for fn, vals in sent.items():
+            if fn not in spec.get("readable", {}).get(s, [fn]) or fn == "VERSION":
+                continue            # (the sync line itself races with the return by design: "every value sent BEFORE it")
+            allv = other.get(fn, vals)
+            before = [v for q, v in allv if bseq is None or q < bseq]
+            after = [v for q, v in allv if bseq is not None and q >= bseq]
+            if not before:
+                continue
+            cands = {decode_show(o["class"], fn, v) for v in [before[-1]] + after} - {None}
+            dec_before = [d for d in (decode_show(o["class"], fn, v) for v in before) if d is not None]
+            if not cands and not dec_before:
+                continue
+            got = o["attrs"].get(fn)
+            if got not in cands and not (dec_before and got == dec_before[-1] and decode_show(o["class"], fn, before[-1]) is None):
+                bad.append(("populated", f"{s}.{fn} reads {got!r} after initialize(); the device answered {before[-1]!r}"))
+                return bad
+    return bad
+
+
+def mon_c14(spec, run):
+    bad = []
+    tr = run.trace
+    if not api_calls(tr, "initialize"):
+        return bad
+    rets = api_rets(tr, "initialize")
+    if not rets:
+        return [("hang", f"YncaApi.initialize() never returned (fault: {spec.get('fault')}); threads blocked: {run.blocked}")]
+    c0, r0 = api_calls(tr, "initialize")[0], rets[0]
+    if r0["exc"] is None:
+        return bad          # the fault came too late to matter: initialisation completed
+    if r0["exc"] not in LIB_EXC:
+        bad.append(("wrong-exception", f"initialize() raised {r0['exc']}: {r0.get('msg')}, not one of the library's exceptions"))
+    nsub = len([c for c in calls(tr) if c["op"][0] in ("get", "put", "raw") and c["call"] < r0["seq"]])
+    bound = nsub * SPACING_US + 2_000_000 + 30 * 500_000 + 2 * JOIN_US + 1_000_000
+    if r0["t"] - c0["t"] > bound:
+        bad.append(("slow", f"initialize() took {(r0['t'] - c0['t']) / 1e6:.1f}s to fail (bound {bound / 1e6:.1f}s)"))
+    if r0["state"]:
+        bad.append(("accessors", f"subunit accessors {sorted(r0['state'])} are still set after initialize() failed"))
+    opened = any(e["k"] == "open" for e in tr) and not spec.get("open_fails")
+    if opened and not any(e["k"] == "port_close" for e in tr):
+        bad.append(("port-open", "the transport is still open after initialize() failed"))
+    elif opened:
+        pc = next(e for e in tr if e["k"] == "port_close")
+        if pc["t"] > r0["t"] + 1000:
+            bad.append(("port-open", f"the transport was closed only {(pc['t'] - r0['t']) / 1e6:.2f}s after initialize() had failed"))
+    for role in ("R", "S"):
+        started = any(e["th"] == role for e in tr)
+        ex = [e for e in tr if e["k"] == "thread_exit" and e["th"] == role]
+        if started and not ex:
+            bad.append(("thread-alive", f"library thread {role} keeps running after initialize() failed"))
+        elif ex and ex[0]["t"] > r0["t"] + 2 * JOIN_US + 100_000:
+            bad.append(("thread-late", f"library thread {role} terminated {(ex[0]['t'] - r0['t']) / 1e6:.2f}s after initialize() failed"))
+    return bad
+
+
+def mon_c17(spec, run):
+    bad = []
+    tr = run.trace
+    if not api_calls(tr, "connection_check"):
+        return bad
+    rets = api_rets(tr, "connection_check")
+    if not rets:
+        return [("hang", "connection_check() never returned")]
+    c0, r0 = api_calls(tr, "connection_check")[0], rets[0]
+    dl = dev_lines(tr)
+    rl = read_lines(tr)
+    # what the device reported before the check ended
+    mn_replies = [(s, t, l, c) for s, t, l, c in dl if l.startswith("@SYS:MODELNAME=")]
+    zones_reported = [m.group(1) for s, t, l, c in dl for m in [_LINE.fullmatch(l)] if m and m.group(2) == "AVAIL" and m.group(1) in ("MAIN", "ZONE2", "ZONE3", "ZONE4")]
+    timeout_us = 1_500_000
+    wait_start = max([c["t_ret"] for c in calls(tr) if c["op"][0] == "get" and c["t_ret"] is not None and c["call"] < r0["seq"]], default=c0["t"])
+    user_q = [e for e in tr if e["k"] == "write" and bytes.fromhex(e["data"]) == (PROBE + "\r\n").encode()]
+    # the reply to the user's own MODELNAME query is the one caused after the third MODELNAME write (two start-up probes first)
+    faulty = any(e["k"] in ("read_fault", "fault_injected", "write_fault") for e in tr) or spec.get("open_fails")
+    if r0["exc"] is None:
+        res = r0["res"]
+        model = spec["device"].get("model")
+        if res["modelname"] != model:
+            bad.append(("modelname", f"connection_check() reported model {res['modelname']!r}, the device says {model!r}"))
+        exp = [z for z in ("MAIN", "ZONE2", "ZONE3", "ZONE4") if z in spec["device"].get("avail", {})]
+        if sorted(res["zones"]) != sorted(exp) and not faulty and spec["device"].get("silent_after") is None:
+            # causal signature of the recorded finding: both start-up probes were answered, the reply to the SECOND probe was delivered
+            # to the message callbacks as a MODELNAME message (the flag had been cleared by the first reply), the wait ended
+            # there, and the zones reported are exactly those whose AVAIL replies had been read by then
+            mcb = [e for e in tr if e["k"] == "msg_cb" and e["su"] == "SYS" and e["fn"] == "MODELNAME" and e["seq"] < r0["seq"]]
+            reads_mn = [(s, t) for s, t, x in rl if x.startswith("@SYS:MODELNAME=")]
+            avail_read_before = [m.group(1) for s, t, x in rl for m in [_LINE.fullmatch(x)]
+                                 if m and m.group(2) == "AVAIL" and mcb and s < mcb[0]["seq"] and m.group(1) in ("MAIN", "ZONE2", "ZONE3", "ZONE4")]
+            known_sig = (not spec["device"].get("swallow_first") and len(reads_mn) >= 2 and mcb
+                         and reads_mn[1][0] < mcb[0]["seq"] and (len(reads_mn) < 3 or mcb[0]["seq"] < reads_mn[2][0])
+                         and sorted(res["zones"]) == sorted(avail_read_before)
+                         and reads_mn[1][1] - [t for t, d, _ in writes(tr) if d == (PROBE + "\r\n").encode()][1] >= SPACING_US)
+            bad.append(("zones-early-probe-reply" if known_sig else "zones",
+                        f"connection_check() reported zones {res['zones']}, the device has {exp} "
+                        f"(reply latency {spec['device'].get('latency')}, first probe {'swallowed' if spec['device'].get('swallow_first') else 'answered'})"))
+    else:
+        if r0["exc"] != "YncaConnectionError" and not (r0["exc"] == "YncaConnectionFailed" and faulty):
+            bad.append(("wrong-exception", f"connection_check() raised {r0['exc']}: {r0.get('msg')}"))
+        # a model name that arrived well within the time-out must not end in an error
+        # the reply to the user's own MODELNAME query is the third one (the second when the device swallowed the first probe)
+        own = mn_replies[(2 - int(spec["device"].get("swallow_first", 0))):]
+        ok_replies = [t for s, t, l, c in own if t < wait_start + timeout_us - 10_000]
+        if ok_replies and not faulty and r0["exc"] == "YncaConnectionError" and spec["device"].get("silent_after") is None:
+            bad.append(("spurious-error", "connection_check() raised although a model name reply arrived within the time-out"))
+    if r0["exc"] is not None and r0["t"] - wait_start > timeout_us + 2 * JOIN_US + 200_000:
+        bad.append(("slow", f"connection_check() took {(r0['t'] - c0['t']) / 1e6:.2f}s"))
+    opened = any(e["k"] == "open" for e in tr) and not spec.get("open_fails")
+    if opened and not any(e["k"] == "port_close" and e["seq"] < r0["seq"] for e in tr):
+        bad.append(("port-open", "the temporary connection was not closed when connection_check() ended"))
+    for role in ("R", "S"):
+        started = any(e["th"] == role for e in tr)
+        ex = [e for e in tr if e["k"] == "thread_exit" and e["th"] == role]
+        if started and not ex:
+            bad.append(("thread-alive", f"library thread {role} keeps running after connection_check()"))
+    return [b if len(b) == 2 else (b[0], b[1]) for b in bad]
+
+
+MONITORS.update({"C06": mon_c06, "C07": mon_c07, "C14": mon_c14, "C17": mon_c17})
